@@ -81,7 +81,7 @@ def crate_checks(out):
     """Config::build_crate output for every mix of types / errors / services: `cargo check` of the emitted crate, whose
     conjure-* dependencies are pointed at /repo's crates (same names, so a dependency the manifest lacks stays missing)."""
     vc.cargo_build("vh")
-    vh = os.path.join(vc.HARNESS, "target", "debug", "vh")
+    vh = os.path.join(vc.TARGET, "debug", "vh")
     base = os.path.join(vc.HARNESS, "target", "c03crates")      # below harness/: its .cargo/config.toml (offline, target dir) applies
     shutil.rmtree(base, ignore_errors=True)
     os.makedirs(base)
